@@ -6,9 +6,9 @@ from . import gen as G
 from . import prov
 
 
-def file_spec(rng, kind=None, p_enc=0.0, max_len=300, p_config=0.0):
+def file_spec(rng, kind=None, p_enc=0.0, max_len=300, p_config=0.0, allow_many=True):
     kind = kind or rng.choice(["bf3", "bf3", "bec2"])
-    spec = {"kind": kind, "obj": G.bf3_spec(rng, max_comps=4, p_enc=p_enc, max_len=max_len),
+    spec = {"kind": kind, "obj": G.bf3_spec(rng, max_comps=4, p_enc=p_enc, max_len=max_len, allow_many=allow_many),
             "via": rng.choice(["path", "stream"]), "rng": rng.getrandbits(32)}
     if rng.random() < p_config:
         spec["obj"]["config"] = G.config_spec(rng)
